@@ -569,3 +569,70 @@ proof fn lemma_pre_add(gt0: Map<InpId, RoaringBitmap>, gt1: Map<InpId, RoaringBi
 }
 
 } // verus!
+verus! {
+
+/// what make_transitions_image may list: a transition of the table, or a transition into the dead
+/// state for a (state with a row, symbol without a cell)
+spec fn img_entry(d: DFA, t: Transition) -> bool {
+    (used(d, t.from, t.input) && d.transitions@[t.from][t.input] == t.to)
+    || (t.to == DEAD_STATE_ID && d.transitions@.contains_key(t.from) && !used(d, t.from, t.input))
+}
+
+spec fn img_all(d: DFA, ts: Seq<Transition>) -> bool { forall|m: int| 0 <= m < ts.len() ==> img_entry(d, #[trigger] ts[m]) }
+
+/// every transition leaving q is in the list
+spec fn row_listed(d: DFA, ts: Seq<Transition>, q: u32) -> bool {
+    forall|a: InpId| #[trigger] used(d, q, a) ==> ts.contains(Transition { from: q, to: d.transitions@[q][a], input: a })
+}
+
+spec fn img_rows(d: DFA, ts: Seq<Transition>, rowk: Seq<u32>, n: int) -> bool {
+    forall|i: int| 0 <= i < n && i < rowk.len() ==> row_listed(d, ts, #[trigger] rowk[i])
+}
+
+proof fn lemma_img_push(d: DFA, ts: Seq<Transition>, t: Transition, rowk: Seq<u32>, n: int)
+    requires img_all(d, ts), img_rows(d, ts, rowk, n), img_entry(d, t)
+    ensures img_all(d, ts.push(t)), img_rows(d, ts.push(t), rowk, n), forall|x: Transition| ts.contains(x) ==> ts.push(t).contains(x), ts.push(t).contains(t)
+{
+    let t2 = ts.push(t);
+    assert forall|x: Transition| ts.contains(x) implies t2.contains(x) by {
+        let m = choose|m: int| 0 <= m < ts.len() && ts[m] == x;
+        assert(t2[m] == x);
+    }
+    assert(t2[ts.len() as int] == t);
+    assert forall|m: int| 0 <= m < t2.len() implies img_entry(d, #[trigger] t2[m]) by {
+        if m < ts.len() { assert(t2[m] == ts[m]); }
+    }
+    assert forall|i: int| 0 <= i < n && i < rowk.len() implies row_listed(d, t2, #[trigger] rowk[i]) by {
+        assert(row_listed(d, ts, rowk[i]));
+    }
+}
+
+/// the list, sorted and without repetitions, is the image the splitter needs
+proof fn lemma_image(d: DFA, ts: Seq<Transition>, out: Seq<Transition>, rowk: Seq<u32>)
+    requires
+        img_all(d, ts), img_rows(d, ts, rowk, rowk.len() as int),
+        forall|q: u32| d.transitions@.contains_key(q) ==> exists|i: int| 0 <= i < rowk.len() && #[trigger] rowk[i] == q,
+        sorted_by_to(out),
+        forall|t: Transition| out.contains(t) <==> ts.contains(t),
+    ensures image_ok(d, out)
+{
+    reveal(image_ok);
+    assert forall|q: u32, a: InpId| #[trigger] used(d, q, a) implies exists|m: int| 0 <= m < out.len() && #[trigger] tr_is(out[m], q, a, d.transitions@[q][a]) by {
+        let i = choose|i: int| 0 <= i < rowk.len() && #[trigger] rowk[i] == q;
+        assert(row_listed(d, ts, rowk[i]));
+        let t = Transition { from: q, to: d.transitions@[q][a], input: a };
+        assert(ts.contains(t));
+        assert(out.contains(t));
+        let m = choose|m: int| 0 <= m < out.len() && out[m] == t;
+        assert(tr_is(out[m], q, a, d.transitions@[q][a]));
+    }
+    assert forall|m: int| 0 <= m < out.len() implies (used(d, (#[trigger] out[m]).from, out[m].input) && d.transitions@[out[m].from][out[m].input] == out[m].to)
+            || (out[m].to == DEAD_STATE_ID && d.transitions@.contains_key(out[m].from) && !used(d, out[m].from, out[m].input)) by {
+        assert(out.contains(out[m]));
+        assert(ts.contains(out[m]));
+        let k = choose|k: int| 0 <= k < ts.len() && ts[k] == out[m];
+        assert(img_entry(d, ts[k]));
+    }
+}
+
+} // verus!
